@@ -10,7 +10,7 @@ INC = -I/verif/shim $(foreach d,common Simplex_tree Persistence_matrix Zigzag_pe
 LDFLAGS_ASAN = $(SAN)
 
 ENGINES_SIMPLE = toplex skbl
-all: $(foreach e,$(ENGINES_SIMPLE),$(BUILD)/$(e)) $(BUILD)/st_hist $(BUILD)/pm_base $(BUILD)/pm_hist $(BUILD)/zz_hist
+all: $(foreach e,$(ENGINES_SIMPLE),$(BUILD)/$(e)) $(BUILD)/st_hist $(BUILD)/pm_base $(BUILD)/pm_hist $(BUILD)/zz_hist $(BUILD)/own
 
 $(BUILD)/core.o: /verif/sim/core.cpp /verif/sim/core.h
 	@mkdir -p $(BUILD)
@@ -60,6 +60,14 @@ $(foreach k,$(ZZ_TUS),$(BUILD)/zz_cfg_$(k).o): $(BUILD)/zz_cfg_%.o: /verif/engin
 	@mkdir -p $(BUILD)
 	$(CXX) $(CXXFLAGS_COMMON) $(SAN) $(INC) -DZZ_TU=$* -c $< -o $@
 $(BUILD)/zz_hist: $(BUILD)/zz_hist.o $(BUILD)/core.o $(foreach k,$(ZZ_TUS),$(BUILD)/zz_cfg_$(k).o)
+	$(CXX) $(LDFLAGS_ASAN) $^ -o $@
+
+# own (C15)
+OWN_TUS = 0 1 2 3 4 5
+$(foreach k,$(OWN_TUS),$(BUILD)/own_cfg_$(k).o): $(BUILD)/own_cfg_%.o: /verif/engines/own_cfg.cpp
+	@mkdir -p $(BUILD)
+	$(CXX) $(CXXFLAGS_COMMON) $(SAN) $(INC) -DGUDHI_USE_TBB -DOWN_TU=$* -c $< -o $@
+$(BUILD)/own: $(BUILD)/own.o $(BUILD)/core.o $(foreach k,$(OWN_TUS),$(BUILD)/own_cfg_$(k).o)
 	$(CXX) $(LDFLAGS_ASAN) $^ -o $@
 
 -include $(wildcard $(BUILD)/*.d)
